@@ -715,10 +715,167 @@ def _replay_serial(beh):
   return {'steps': steps, 'drift': drift}
 
 
-def replay_behaviours(prop, tier, seed):
+# ------------------------------------------------------------------ direction A (mux transport)
+def _replay_mux(beh):
+  """Step the real ThriftMux SocketTransportSink through one TLC behaviour of MuxTransportQ.tla.
+  Caller steps (Request, Timeout) are plain synchronous calls, peer steps feed the socket, and the
+  event loop runs to quiescence where the model says Quiesced.  Tags are compared modulo renaming
+  (TagPool picks from its free set in an order the model leaves open): per request, not per number.
+  Projection at every quiescent point: reported state, TagPool._next, size of the free set, the
+  requests in the tag map, the requests still carrying a tag, the requests that got an outcome."""
+  loop = common.boot()
+  import gevent
+  from harness.simgevent import simnet, peers
+  from scales.constants import SinkProperties, MessageProperties
+  from scales.loadbalancer.zookeeper import Endpoint
+  from scales.message import MethodCallMessage, MethodReturnMessage, Deadline, TimeoutError
+  from scales.observable import Observable
+  from scales.sink import ClientMessageSink, ClientMessageSinkStack
+  from scales.thriftmux.sink import SocketTransportSink, ThriftMuxMessageSerializerSink
+  from test.scales.thrift.gen_py.hello import Hello
+  loop.settle()
+  net = simnet.SimNet(loop).install()
+  peer = peers.MuxPeer(net)
+  net.peer_factory = lambda c: peer
+  ser = ThriftMuxMessageSerializerSink.Builder()
+  ser.next_provider = SocketTransportSink.Builder()
+  top = ser.CreateSink({SinkProperties.Endpoint: Endpoint('10.0.0.1', 9090), SinkProperties.Label: 'svc',
+                        SinkProperties.ServiceInterface: Hello.Iface})
+  transport = top.next_sink
+  gevent.spawn(lambda: top.Open().wait())
+  loop.settle()
+  max_tag = beh[0][1].get('_maxtag', 8)
+  transport._tag_pool._max_tag = max_tag
+  got = {}
+  msgs, stacks, evts, realtag = {}, {}, {}, {}
+
+  class Terminal(ClientMessageSink):
+    def AsyncProcessRequest(self, *a):
+      raise NotImplementedError()
+
+    def AsyncProcessResponse(self, sink_stack, context, stream, msg):
+      got[context] = got.get(context, 0) + 1
+  terminal = Terminal()
+
+  def live_conn():
+    cs = [c for c in net.conns if c.connected and not c.closed]
+    return cs[-1] if cs else None
+
+  def project_real():
+    rs = int(transport.state)
+    by_props = {id(m.properties): r for r, m in msgs.items()}
+    return {'st': 'Open' if rs in (2, 3) else 'Closed',
+            'next': transport._tag_pool._next, 'nfree': len(transport._tag_pool._set),
+            'inmap': sorted(by_props.get(id(t[2]), -1) for t in transport._tag_map.values()),
+            'keyed': sorted(r for r, m in msgs.items() if m.properties.get('__Tag')),
+            'got': sorted(r for r, n in got.items() if n > 0)}
+
+  def project_spec(s):
+    tm = s['tagmap'] if isinstance(s['tagmap'], dict) else {}
+    return {'st': s['st'], 'next': s['pool']['next'], 'nfree': len(s['pool']['free']),
+            'inmap': sorted(tm.values()),
+            'keyed': sorted(i + 1 for i, v in enumerate(s['tagkey']) if v),
+            'got': sorted(i + 1 for i, v in enumerate(s['got']) if v)}
+
+  drift = None
+  steps = compared = 0
+  prev = beh[0][1]
+  for (act, s) in beh[1:]:
+    name = act[0]
+    steps += 1
+    ptm = prev['tagmap'] if isinstance(prev['tagmap'], dict) else {}
+    if name == 'Caller':
+      newreq = [i + 1 for i, v in enumerate(s['tagkey']) if v and not prev['tagkey'][i]]
+      newto = [i + 1 for i, v in enumerate(s['evt']) if v and not prev['evt'][i]]
+      if newreq:
+        r = newreq[0]
+        msg = MethodCallMessage(Hello.Iface, 'hi', ('r%d' % r,), {})
+        msg.properties[MessageProperties.Endpoint] = None
+        msg.properties[Deadline.KEY] = loop.now() + 500.0
+        evts[r] = msg.properties[Deadline.EVENT_KEY] = Observable()
+        stack = ClientMessageSinkStack()
+        stack.Push(terminal, r)
+        msgs[r], stacks[r] = msg, stack
+        from_free = bool(prev['pool']['free'])
+        real_free = bool(transport._tag_pool._set)
+        top.AsyncProcessRequest(stack, msg, None, {})
+        realtag[r] = msg.properties.get('__Tag')
+        if from_free != real_free and drift is None:
+          drift = {'step': steps, 'action': ['Request', r], 'spec': 'tag from free set: %s' % from_free,
+                   'real': 'tag from free set: %s' % real_free}
+      elif newto:
+        # what ClientTimeoutSink._TimeoutHelper does when the call's timer fires
+        r = newto[0]
+        evts[r].Set(True)
+        stacks[r].AsyncProcessResponseMessage(MethodReturnMessage(error=TimeoutError()))
+    elif name == 'PeerStep':
+      c = live_conn()
+      if s['st'] == 'Closed' and prev['st'] == 'Open':
+        if c is not None:
+          c.feed_error()
+      elif len(s['inbound']) > len(prev['inbound']) and c is not None:
+        typ, tag = s['inbound'][-1]
+        if typ == -2:
+          r = ptm.get(tag)
+          un = [p for p in peer.unanswered() if p.tag == realtag.get(r) and not p.conn.closed]
+          if not un:
+            drift = drift or {'step': steps, 'action': ['PeerAnswer', tag], 'spec': 'tag %d (request %s) is on the wire' % (tag, r),
+                              'real': 'the peer holds no unanswered request with tag %s' % realtag.get(r)}
+            break
+          peer.release(un[-1])
+        else:
+          # a stray frame: names a tag that is not on the wire (free, never allocated, reserved)
+          free_m = sorted(prev['pool']['free'])
+          free_r = sorted(transport._tag_pool._set)
+          if tag in free_m and len(free_r) == len(free_m):
+            rt = free_r[free_m.index(tag)]
+          elif tag in ptm:
+            rt = realtag.get(ptm[tag], tag)
+          elif tag > prev['pool']['next']:
+            rt = tag + 40          # never allocated in either
+          else:
+            rt = tag
+          peer.send_frame(c, -2, rt, b'\x00\x00\x00')
+    elif name == 'Run':
+      pass
+    elif name == 'Quiesced':
+      loop.settle()
+      compared += 1
+      try:
+        real = project_real()
+      except Exception as ex:
+        real = {'error': repr(ex)[:200]}
+      spec = project_spec(s)
+      if drift is None and real != spec:
+        drift = {'step': steps, 'action': ['Quiesced'], 'spec': spec, 'real': real}
+    prev = s
+    if drift:
+      break
+  return {'steps': steps, 'compared': compared, 'drift': drift}
+
+
+def replay_behaviours(prop, tier, seed, _mux_part=None):
+  from harness import tlc
+  if prop == 'C11' or (prop == 'C08' and _mux_part is None):
+    num = 300 if tier == 'quick' else 3000
+    r, behs = tlc.simulate_behaviours('MuxTransportQ', 'MuxTransportQ_sim.cfg', num=num, depth=60, seed=int(seed) + 5)
+    if not behs:
+      raise RuntimeError('no behaviours from TLC simulate:\n' + r.stdout[-1500:])
+    res = common.run_forked(_replay_mux, behs)
+    errs_ = [x['err'] for x in res if 'err' in x]
+    if errs_:
+      raise RuntimeError('mux replay failed: ' + errs_[0])
+    drift = [x['ok']['drift'] for x in res if x['ok']['drift']]
+    out = {'summary': {'model': 'MuxTransportQ', 'behaviours_replayed': len(behs),
+                       'steps_replayed': sum(x['ok']['steps'] for x in res),
+                       'quiescent_points_compared': sum(x['ok']['compared'] for x in res), 'drift': len(drift)},
+           'traces': [], 'drift': drift}
+    if prop == 'C11':
+      return out
+    ser = replay_behaviours(prop, tier, seed, _mux_part=out)
+    return {'summary': {'serial': ser['summary'], 'mux': out['summary']}, 'traces': [], 'drift': ser['drift'] + out['drift']}
   if prop != 'C08':
     return {'summary': {}, 'traces': [], 'drift': []}
-  from harness import tlc
   num = 300 if tier == 'quick' else 3000
   r, behs = tlc.simulate_behaviours('SerialTransport', 'SerialTransport_sim.cfg', num=num, depth=30, seed=int(seed) + 3)
   if not behs:
